@@ -78,11 +78,44 @@ def run(ctx):
             continue
         jobs.append(cpp_build.CppJob("s%d" % i, None, driver, cxx="clang++", cxxflags=flags))
         infos.append(dict(i=i, text=text, bufs=bufs))
+    # the parameterless structures of testdata/*.emb (arrays of structures, enums, conditionals, text_output,
+    # [requires], alignments ...) through the same sanitizer driver
+    from harness.props.c01 import corpus_structures
+    cts = corpus_structures(ctx, with_parameters=False)
+    chosen = cts if ctx.thorough() else ctx.rng.sample(cts, min(8, len(cts)))
+    cheaders = {}
+    for ci, (rel, cir, ctr, cterm, k, t) in enumerate(chosen):
+        try:
+            if rel not in cheaders:
+                from compiler.back_end.cpp import header_generator
+                cheaders[rel] = header_generator.generate_header(cir)
+            header, herrs = cheaders[rel]
+            if herrs:
+                continue
+            bufs = []
+            for bj in range(3 if not ctx.thorough() else 6):
+                f = [lambda: 0, lambda: 255, lambda: ctx.rng.randrange(256), lambda: ctx.rng.choice([0, 1, 2, 3])][bj % 4]
+                bufs.append([f() for _ in range(48)])
+            driver = view_x.safety_driver(ctr, "/*INLINE*/\n" + header, k, bufs)
+        except OutOfModel as ex:
+            ctx.count("corpus-out-of-model:" + str(ex).split(" ")[0])
+            continue
+        jobs.append(cpp_build.CppJob("s%d" % (1000 + ci), None, driver, cxx="clang++", cxxflags=flags))
+        infos.append(dict(i=1000 + ci, text="# %s, structure %s\n" % (rel, ".".join(t.name.canonical_name.object_path))
+                          + open(os.path.join(fw.REPO, rel)).read(), bufs=bufs))
+        ctx.count("corpus-structure")
     # targeted probe of finding F8 (virtual write transform evaluated on the raw argument)
     f8_text = ('[$default byte_order: "LittleEndian"]\n[(cpp) namespace: "m"]\nstruct Top:\n  0 [+1]  UInt  x\n  let y = x + 100\n')
     f8_driver = ('#include <cstdio>\n#include <limits>\n#include "f8.emb.h"\nint main() { unsigned char b[1] = {1}; auto v = m::MakeTopView(b, 1);\n'
                  '  bool c = v.y().CouldWriteValue(::std::numeric_limits<decltype(v.y().Read())>::min()); ::std::printf("DONE %d\\n", (int)c); return 0; }\n')
     jobs.append(cpp_build.CppJob("f8", f8_text, f8_driver, cxx="clang++", cxxflags=flags))
+    # targeted probe: Ok() of a conditional virtual field whose condition is false
+    vo_text = ('[$default byte_order: "LittleEndian"]\n[(cpp) namespace: "m"]\nstruct Top:\n  0 [+1]  UInt  x\n'
+               '  if x < 5:\n    let y = x * 2\n')
+    vo_driver = ('#include <cstdio>\n#include "vo.emb.h"\nint main() { unsigned char b[1] = {200}; auto v = m::MakeTopView(b, 1);\n'
+                 '  int has = v.has_y().ValueOr(true) ? 1 : 0; int ok = v.y().Ok() ? 1 : 0; ::std::printf("VO has=%d ok=%d\\n", has, ok); ::std::fflush(stdout);\n'
+                 '  if (ok) { long long r = static_cast<long long>(v.y().Read()); ::std::printf("VO read=%lld\\n", r); }\n  ::std::printf("DONE\\n"); return 0; }\n')
+    jobs.append(cpp_build.CppJob("vo", vo_text, vo_driver, cxx="clang++", cxxflags=flags))
     os.environ.setdefault("ASAN_OPTIONS", "detect_leaks=0:abort_on_error=0")
     os.environ.setdefault("UBSAN_OPTIONS", "print_stacktrace=1")
     results = cpp_build.run_jobs(os.path.join(ctx.bdir, "cpp"), jobs, parallel=fw.NPROC, timeout=600)
@@ -96,6 +129,15 @@ def run(ctx):
         ctx.note("F8 probe did not run: stage %s: %s" % (f8.stage, f8.log[-300:]))
     else:
         ctx.note("F8 probe no longer reports an overflow")
+    vo = results["vo"]
+    if any(l.startswith("VO has=0 ok=1") for l in vo.lines):
+        ctx.violation("virtual-ok-ignores-existence",
+                      "y().Ok() is true although has_y() is false; the following Read() %s"
+                      % ("trips EMBOSS_CHECK(view_.has_y().ValueOr(false))" if not any(l == "DONE" for l in vo.lines) else "returns a value"),
+                      dict(kind="view-safety", module=vo_text, buffer=[200], operation="y().Ok(); y().Read()", log=vo.log[:1500]),
+                      found_input=True)
+    elif not vo.lines:
+        ctx.note("virtual-Ok probe did not run: stage %s: %s" % (vo.stage, vo.log[-300:]))
     n_ok = 0
     for info in infos:
         res = results["s%d" % info["i"]]
